@@ -272,7 +272,7 @@ def h0(rep, prog):
     qual = {}
     for k in prog.reach_fns(roots):
         g = prog.by_key[k]
-        if not g.file.endswith("argon2.rs"):
+        if not g.path.lstrip("<").startswith("argon2::"):
             continue
         v = inline(prog, g)
         if any(c.rpath.endswith("::State::init") and "blake2b" in c.rpath for c in v.calls()) and \
@@ -287,6 +287,12 @@ def h0(rep, prog):
     if len(froles) < 6:
         rep.violation("ANCHOR", "H0 context roles", "cannot establish the roles of the Argon2 context fields (found %s)" % froles, loc=f.loc())
         return
+    # when the view builds the context itself, its fields resolve to the view's own parameters: their
+    # roles come from the public crypto_pwhash signature as well
+    base_f = getattr(f, "base", f)
+    froles = dict(froles)
+    for role_, p_ in ctor_roles(prog, roots, base_f).items():
+        froles[("param", p_)] = role_
     ups = [c for c in f.calls() if is_up(c)]
     # an update inside `for x in [a, b, ..]` absorbs a, b, .. in order; updates not ordered by dominance
     # (alternatives in different arms) are taken one by one
@@ -452,6 +458,8 @@ def _field_role(e, froles):
     if e is not None and e.k == "field":
         nm = e.b.split(".")[-1] if not e.b.endswith(".0") else e.b.split(".")[0]
         return froles.get(e.b) or froles.get(nm)
+    if e is not None and e.k == "local":
+        return froles.get(("param", e.a))
     return None
 
 
